@@ -42,7 +42,8 @@ From RU Require Import Base.Prelude Base.Utf8 Model.AsciiSet Gen.Tables Model.Pe
   Model.HostT Model.UrlRecord Model.Parser Model.Setters Model.WF Model.KnownC01 Model.KnownC07 Spec.Whatwg
   Proofs.C06_FragQuery
   Proofs.C07_Defs Proofs.C07_Histories Proofs.C07_Setters Proofs.C07_GetSet Proofs.C07_Small
-  Proofs.C07_Corr Proofs.C07_EqFive Proofs.C07_EqOpaqueClass.
+  Proofs.C07_Corr Proofs.C07_EqFive Proofs.C07_EqOpaqueClass
+  Proofs.C01_EqRun Proofs.C07_SpecRun Proofs.C07_SpecProto Proofs.C07_EqProto Proofs.C07_EqSix.
 
 (* ---------- the statement ---------- *)
 
@@ -334,6 +335,156 @@ Proof. eexists. eexists. vm_compute. repeat split. Qed.
 Example C07_five_ops_inhabited :
   five_ops [(QHash, str "#a b"); (QSearch, str "?x=1#y"); (QUsername, str "me@"); (QPassword, []); (QPort, str "8080x")].
 Proof. cbn [five_ops five]. repeat split; repeat constructor; vm_compute; auto. Qed.
+
+(* ---------- protocol; six setters: all related records, all values, all histories ---------- *)
+
+(* the Standard's protocol setter in closed form: the basic URL parser run from the scheme start state
+   with a state override on "value:" either leaves the record (no scheme before the first ':', or one
+   of steps 2.1.1 - 2.1.4 of the scheme state refuses) or replaces the scheme and drops a port that is
+   the new default port *)
+Theorem C07_protocol_standard_closed : forall shp su v,
+  spec_set shp SetProtocol su v
+  = SetTo (match spec_scheme (notnl v ++ [58]) with
+           | Some (sch, _) => if proto_refuses su sch then su else renorm (Whatwg.set_scheme su sch)
+           | None => su end).
+Proof. exact spec_protocol_closed. Qed.
+Check C07_protocol_standard_closed : forall shp su v,
+  spec_set shp SetProtocol su v
+  = SetTo (match spec_scheme (notnl v ++ [58]) with
+           | Some (sch, _) => if proto_refuses su sch then su else renorm (Whatwg.set_scheme su sch)
+           | None => su end).
+Print Assumptions C07_protocol_standard_closed.
+
+(* protocol: scheme start state / scheme state with a state override.  The relation is corrS = corr
+   together with the invariants `sane` of the Standard's record (a URL that cannot have a
+   username/password/port has none; a special URL has a host, non-empty unless the scheme is "file"; an
+   opaque path comes without host) - without them the decision of Url::set_scheme, which looks at
+   has_authority() and has_host(), is not the Standard's.  Outside class 6 of Known_C07 (protocol := file
+   on a special URL that is not a file URL, F-C07-7).  file -> file: refused by the code, a no-op in the
+   Standard. *)
+Theorem C07_protocol_equiv : forall dbg hp ho hd shp shs u su v, corrS dbg shs u su -> usv_list v ->
+  known_c07 u QProtocol v = 0 ->
+  exists u' su', model_set dbg hp ho hd QProtocol u v = Some u' /\ spec_step shp QProtocol su v = Some su'
+    /\ corrS dbg shs u' su' /\ model_api dbg u' = Some (spec_api_list shs su').
+Proof. exact protocol_equiv. Qed.
+Check C07_protocol_equiv : forall dbg hp ho hd shp shs u su v, corrS dbg shs u su -> usv_list v ->
+  known_c07 u QProtocol v = 0 ->
+  exists u' su', model_set dbg hp ho hd QProtocol u v = Some u' /\ spec_step shp QProtocol su v = Some su'
+    /\ corrS dbg shs u' su' /\ model_api dbg u' = Some (spec_api_list shs su').
+Print Assumptions C07_protocol_equiv.
+
+(* the invariants are kept by the Standard's protocol setter and by the five setters above *)
+Theorem C07_sane_kept : forall shp s su v su', six s = true -> sane su ->
+  spec_step shp s su v = Some su' -> sane su'.
+Proof.
+  intros shp s su v su' Hs S H. destruct (five s) eqn:H5; [exact (spec_five_sane shp s su v su' H5 S H)|].
+  destruct s; try discriminate Hs; try discriminate H5.
+  unfold spec_step in H. cbn [setter_of_q] in H.
+  destruct (spec_set shp SetProtocol su v) as [x|] eqn:E; [|discriminate H]. injection H as <-.
+  exact (spec_protocol_sane shp su v x S E).
+Qed.
+Print Assumptions C07_sane_kept.
+
+(* PARTIAL C07_statement: its one-step clause (`one_step`) with R := corrS, restricted to six of the ten
+   setters and to values that are strings of scalar values (every Rust &str is).  Missing: host,
+   hostname, pathname, href; and that parsing yields records related by corrS beyond the classes below. *)
+Theorem C07_six_setters_partial : forall dbg hp ho hd shp shs u su s v,
+  corrS dbg shs u su -> six s = true -> usv_list v -> known_c07 u s v = 0 ->
+  exists u' su', model_set dbg hp ho hd s u v = Some u' /\ spec_step shp s su v = Some su'
+    /\ corrS dbg shs u' su' /\ model_api dbg u' = Some (spec_api_list shs su').
+Proof. exact six_step_api. Qed.
+Check C07_six_setters_partial : forall dbg hp ho hd shp shs u su s v,
+  corrS dbg shs u su -> six s = true -> usv_list v -> known_c07 u s v = 0 ->
+  exists u' su', model_set dbg hp ho hd s u v = Some u' /\ spec_step shp s su v = Some su'
+    /\ corrS dbg shs u' su' /\ model_api dbg u' = Some (spec_api_list shs su').
+Print Assumptions C07_six_setters_partial.
+
+(* ... along every history of assignments through the six setters *)
+Theorem C07_six_histories : forall dbg hp ho hd shp shs ops u su,
+  corrS dbg shs u su -> six_ops ops -> outside_known dbg hp ho hd u ops ->
+  forall n, exists u' su',
+    model_run dbg hp ho hd u (firstn n ops) = Some u'
+    /\ spec_run shp su (firstn n ops) = Some su'
+    /\ corrS dbg shs u' su'
+    /\ model_api dbg u' = Some (spec_api_list shs su').
+Proof. exact six_histories. Qed.
+Check C07_six_histories : forall dbg hp ho hd shp shs ops u su,
+  corrS dbg shs u su -> six_ops ops -> outside_known dbg hp ho hd u ops ->
+  forall n, exists u' su',
+    model_run dbg hp ho hd u (firstn n ops) = Some u'
+    /\ spec_run shp su (firstn n ops) = Some su'
+    /\ corrS dbg shs u' su'
+    /\ model_api dbg u' = Some (spec_api_list shs su').
+Print Assumptions C07_six_histories.
+
+(* parsing yields records related by corrS on the opaque-path class of inputs ... *)
+Theorem C07_opaque_class_corrS : forall dbg hp ho hd shp shs input sch rem, usv_list input ->
+  parse_scheme CUrlParser (input_new_trim_c0 input) = Some (sch, rem) ->
+  scheme_type_of sch = STNotSpecial -> inp_split_prefix_char 47 rem = None ->
+  exists su, spec_basic_url_parse shp input None = BDone su
+    /\ (parse_url dbg hp ho hd None None input = PErr Overflow
+        \/ exists u, parse_url dbg hp ho hd None None input = POk u /\ corrS dbg shs u su).
+Proof. exact opaque_class_corrS. Qed.
+Print Assumptions C07_opaque_class_corrS.
+
+(* ... so C07_statement holds restricted to start URLs of that class and to the six setters, histories
+   included: parse, then any sequence of protocol / hash / search / username / password / port
+   assignments with any values *)
+Theorem C07_six_opaque_class : forall dbg hp ho hd shp shs input sch rem u ops, usv_list input ->
+  parse_scheme CUrlParser (input_new_trim_c0 input) = Some (sch, rem) ->
+  scheme_type_of sch = STNotSpecial -> inp_split_prefix_char 47 rem = None ->
+  parse_url dbg hp ho hd None None input = POk u ->
+  six_ops ops -> outside_known dbg hp ho hd u ops ->
+  exists su, spec_basic_url_parse shp input None = BDone su
+    /\ model_api dbg u = Some (spec_api_list shs su)
+    /\ forall n, exists u' su',
+         model_run dbg hp ho hd u (firstn n ops) = Some u'
+         /\ spec_run shp su (firstn n ops) = Some su'
+         /\ model_api dbg u' = Some (spec_api_list shs su').
+Proof. exact six_from_opaque_class. Qed.
+Check C07_six_opaque_class : forall dbg hp ho hd shp shs input sch rem u ops, usv_list input ->
+  parse_scheme CUrlParser (input_new_trim_c0 input) = Some (sch, rem) ->
+  scheme_type_of sch = STNotSpecial -> inp_split_prefix_char 47 rem = None ->
+  parse_url dbg hp ho hd None None input = POk u ->
+  six_ops ops -> outside_known dbg hp ho hd u ops ->
+  exists su, spec_basic_url_parse shp input None = BDone su
+    /\ model_api dbg u = Some (spec_api_list shs su)
+    /\ forall n, exists u' su',
+         model_run dbg hp ho hd u (firstn n ops) = Some u'
+         /\ spec_run shp su (firstn n ops) = Some su'
+         /\ model_api dbg u' = Some (spec_api_list shs su').
+Print Assumptions C07_six_opaque_class.
+
+(* the 20 start URLs of the small scope and the 15 of the protocol table (special, file, non-special,
+   opaque path, empty host, credentials, port, "/." marker) are related by corrS to their Standard's
+   parse: for them the ten API strings agree after every prefix of every history of the six setters,
+   whatever the values *)
+Theorem C07_six_small_starts : forall st ops, In st (small_starts ++ proto_starts) -> six_ops ops ->
+  forall u, toy_parse st = Some u -> outside_known true toy_hp toy_ho toy_hd u ops ->
+  exists su, toy_sparse st = Some su
+    /\ forall n, exists u' su',
+         model_run true toy_hp toy_ho toy_hd u (firstn n ops) = Some u'
+         /\ spec_run toy_shp su (firstn n ops) = Some su'
+         /\ model_api true u' = Some (spec_api_list toy_shs su').
+Proof. exact six_from_small_starts. Qed.
+Print Assumptions C07_six_small_starts.
+
+(* the hypotheses can be met: "https://u:p@h:81/a?q#f" is related by corrS to its Standard's parse, the
+   history below is a six-setter history, and none of its steps is in Known_C07 *)
+Example C07_six_inhabited :
+  exists u su, toy_parse (str "https://u:p@h:81/a?q#f") = Some u
+    /\ toy_sparse (str "https://u:p@h:81/a?q#f") = Some su
+    /\ corrS true toy_shs u su
+    /\ six_ops [(QProtocol, str "WS:x"); (QPort, str "80"); (QProtocol, str "ftp"); (QHash, str "#a b")]
+    /\ outside_known true toy_hp toy_ho toy_hd u
+         [(QProtocol, str "WS:x"); (QPort, str "80"); (QProtocol, str "ftp"); (QHash, str "#a b")].
+Proof.
+  destruct (starts_corrS [str "https://u:p@h:81/a?q#f"] ltac:(vm_compute; reflexivity) _ (or_introl eq_refl))
+    as (u & su & A & B & C).
+  exists u, su. split; [exact A|]. split; [exact B|]. split; [exact C|].
+  split; [cbn [six_ops six]; repeat split; repeat constructor; vm_compute; auto|].
+  revert A. vm_compute. intros A. injection A as <-. vm_compute. repeat split.
+Qed.
 
 (* ---------- clauses of the Standard's setters, for all records and values ---------- *)
 
